@@ -19,8 +19,8 @@ Print Assumptions C15_preview_selected.
 Theorem C15_commit : forall d author ts edits orc,
   let nd := normalize_doc d in
   let '(d', ap, sk, out) := apply_edits d author ts edits orc in
-  Rel (scan_ids nd) (next_comment_id nd) nd d' /\ (out = 0 -> ap + sk = length edits).
-Proof. exact engine_rel. Qed.
+  (wf_ids nd -> RelG (scan_ids nd) (next_comment_id nd) (d_next_uid nd) nd d') /\ (out = 0 -> ap + sk = length edits).
+Proof. exact engine_contract. Qed.
 Print Assumptions C15_commit.
 (* both start from the same text: the preview is computed on extract, the commit indexes the same string *)
 Theorem C15_same_text : forall clean d, map_text (build_map clean (d_comments d) d) = extract_u clean d.
